@@ -114,10 +114,12 @@ func (c *Conn) ReadLoop() {
 		c.br.Reset(nil)
 		c.config.brPool.Put(c.br)
 		c.br = nil
+		c.mu.Lock()
 		if c.cpsWindow.enabled {
 			c.config.cswPool.Put(c.cpsWindow.dict)
 			c.cpsWindow.dict = nil
 		}
+		c.mu.Unlock()
 		if c.dpsWindow.enabled {
 			c.config.dswPool.Put(c.dpsWindow.dict)
 			c.dpsWindow.dict = nil
